@@ -264,6 +264,18 @@ func genProbe(r *rand.Rand) Case {
 		f.Op = "stop"
 	}
 	cs.Ops = append(cs.Ops, f)
+	if f.Op == "flush" && r.Intn(2) == 0 {
+		// no further save: a graceful stop must flush what was saved while that flush was running, with its
+		// current content, and the next holder must load it
+		if r.Intn(3) == 0 {
+			cs.Ops = append(cs.Ops, OpJ{Op: "flush"})
+		}
+		cs.Ops = append(cs.Ops, OpJ{Op: "stop"})
+		if r.Intn(2) == 0 {
+			cs.Script = nil
+			return cs
+		}
+	}
 	if r.Intn(3) == 0 {
 		e := genCond(r, up, name)
 		e.Rv = 0
